@@ -73,6 +73,9 @@ pub const MISSING_ONLY: &[&str] = &[
     "def f(:\n  pass\ndef g(:\n  pass\n",
 ];
 
+/// Sources whose tree root is itself an ERROR node (not `module`).
+pub const ROOT_ERROR: &[&str] = &["class A:\n  def g(self\n", "def f(a,\n", "class B(\n  x = 1\n"];
+
 /// Larger files that contain every construct the query pool looks for.
 pub const RICH: &[&str] = &[
     "import os.path, sys\nfrom a.b import c, d.e\n\nclass Foo:\n    def bar(self, x, y):\n        z = x.y.z\n        if z:\n            return foo(z, 1)\n        elif y:\n            pass\n        else:\n            print z\n        return\n\n    def baz(self):\n        pass\n\ndef main(a, b):\n    for i in [a, b, 3]:\n        while i:\n            i = g(i).h\n    s = \"str\" + 'é'\n    return s\n\nmain(1, x)\na\nb.c\npass\n",
